@@ -138,3 +138,10 @@ Fixpoint dict2_set {V : Type} (d : list ((Z * Z) * V)) (k : Z * Z) (v : V) : lis
   | (k', v') :: r =>
       if (fst k' =? fst k) && (snd k' =? snd k) then (k', v) :: r else (k', v') :: dict2_set r k v
   end.
+(* ---- additions for distance_calculation.py (C07 links) ---- *)
+(* a // b and a % b on ints, checked (cfg["zero_division"]): ZeroDivisionError (Err tag) when b = 0; otherwise Coq's
+   floor division / modulo (remainder with the sign of the divisor), which is Python's for every sign *)
+Definition z_floordiv (tag a b : Z) : result Z := if b =? 0 then Err tag else Ok (a / b).
+Definition z_mod (tag a b : Z) : result Z := if b =? 0 then Err tag else Ok (a mod b).
+(* truth value of an Optional[int]: None and 0 are false *)
+Definition opt_int_truthy (o : option Z) : bool := match o with Some n => negb (n =? 0) | None => false end.
